@@ -317,6 +317,9 @@ func routerOpts(c cfgT, mk func(id int) any, log *[]change, id *ids, nfac *int, 
 			return cl, nil
 		}),
 		router.WithOnChange(func(ch router.Change) {
+			if cbHook != nil {
+				cbHook()
+			}
 			*log = append(*log, change{ch.Name, id.of(ch.Old), id.of(ch.New), ch.Auto})
 		}),
 	}
@@ -425,6 +428,11 @@ func (g *c12) typedHistory(e routerEntry, scriptsPerMethod int) {
 		return
 	}
 	sd := sdAny.(protoreflect.ServiceDescriptor)
+	typed := findTyped(rt)
+	if !typed.ok {
+		g.direct("typed-accessors:"+e.File, "router lacks AddXxxClient/RemoveXxxClient/GetXxxClient", e.File)
+	}
+	nmethods := len(reg.desc.Methods) + len(reg.desc.Streams)
 
 	var ops, obs []string
 	var jops []any
@@ -448,10 +456,25 @@ func (g *c12) typedHistory(e routerEntry, scriptsPerMethod int) {
 		if o.kind == "remove" {
 			delete(present, o.name)
 		}
-		rc, rj := doReg(rt, o, clients, id)
+		var rc string
+		var rj any
+		via := "Router"
+		if typed.ok && o.kind != "has" && g.r.Chance(50) {
+			via = "typed"
+			rc, rj = doRegTyped(typed, o, clients, id)
+		} else {
+			rc, rj = doReg(rt, o, clients, id)
+		}
+		g.o.Extra["acc:"+via+":"+o.kind] = extraInt(g.o.Extra["acc:"+via+":"+o.kind]) + 1
 		ops = append(ops, vcoq.App("HReg", o.coq()))
 		obs = append(obs, vcoq.App("HR", rc))
-		jops = append(jops, map[string]any{"op": o.kind, "name": o.name, "client": o.c, "result": rj})
+		jops = append(jops, map[string]any{"op": o.kind, "name": o.name, "client": o.c, "result": rj, "via": via})
+		if o.kind == "add" {
+			// HoldsType: true of this service's clients, false of nil and of anything else
+			if !rt.HoldsType(clients[o.c]) || rt.HoldsType(nil) || (nmethods > 0 && rt.HoldsType(&struct{ x int }{1})) {
+				g.direct("holdstype:"+e.File, "HoldsType does not separate this service's clients from other values", e.File)
+			}
+		}
 	}
 	randReg := func() {
 		n := g.pickName(presentList())
@@ -551,6 +574,9 @@ func (g *c12) typedHistory(e routerEntry, scriptsPerMethod int) {
 				if w.last != nil {
 					cancelled = w.last.ctx.Err() != nil
 					recvs = w.last.recvs
+					if w.last.trlEarly > 0 {
+						g.direct("trailer-before-end:"+full, "router read the child's trailer before the child stream had ended", jop)
+					}
 					if w.last.afterEnd > 0 {
 						g.direct("recv-after-end:"+full, "router kept calling Recv after the child stream ended", jop)
 					}
@@ -703,7 +729,7 @@ func (g *c12) rawHistory(n int) {
 }
 
 func genC12(o *vcoq.Out, r *vcoq.Rand, tier string) error {
-	o.Header = "From SC Require Import Base.Prelude Router.Registry Router.Pump Router.Route Router.RouterGet Router.NameDefault Router.C12Judge."
+	o.Header = "From SC Require Import Base.Prelude Router.Registry Router.Pump Router.Route Router.RouterGet Router.RouterCb Router.RegistryW Router.NameDefault Router.C12Judge."
 	o.CaseType = "c12case"
 	o.Judge = "judge"
 	o.Shard = 60
@@ -723,6 +749,15 @@ func genC12(o *vcoq.Out, r *vcoq.Rand, tier string) error {
 	for i := 0; i < raws; i++ {
 		g.rawHistory(g.r.Range(6, 25))
 	}
+	nw := 25
+	if tier == "thorough" {
+		nw = 400
+	}
+	for i := 0; i < nw; i++ {
+		for opts := 0; opts < 8; opts++ {
+			g.regwHistory(opts, g.r.Range(4, 14))
+		}
+	}
 	g.schedules()
 	g.nameDefaults()
 	g.defaultSequences()
@@ -732,6 +767,14 @@ func genC12(o *vcoq.Out, r *vcoq.Rand, tier string) error {
 		"routers": len(routerTable), "rpcs_unary": o.Extra["rpcs_unary"], "rpcs_stream": o.Extra["rpcs_stream"],
 		"harness_s": time.Since(t0).Seconds(),
 	}
+	// outcome classes of the per-call model (RegistryW.v) and accessor use, for the evidence
+	classes := map[string]any{}
+	for k, v := range o.Extra {
+		if strings.HasPrefix(k, "w:") || strings.HasPrefix(k, "acc:") {
+			classes[k] = v
+		}
+	}
+	o.Extra["coverage_extra"].(map[string]any)["model_outcome_classes"] = classes
 	_ = strings.Join
 	return nil
 }
